@@ -686,9 +686,23 @@ def in2(F, R):
                 a = e.args[1] if len(e.args) > 1 else None
                 if a is not None and mentions(a, p):
                     line_pushes.append(e)
-            fmt = [e for e in it.body_events()]
-            has_l = any(mentions(a, lambda x: x[0] == "field" and x[2] == "(tuple)::0" and mentions(x[1], p)) for e in fmt for a in e.args)
-            has_t = any(mentions(a, lambda x: x[0] == "field" and x[2] == "(tuple)::1" and mentions(x[1], p)) for e in fmt for a in e.args)
+            # what goes into the text of the line: arguments of the formatting machinery, not the bookkeeping around it
+            # (`seen.contains(e.1)`, the recursive call) which also mentions the target
+            fmt = [e for e in it.body_events() if e.kind == "call" and ("fmt::" in e.path or e.name in ("to_string", "push_str", "write_str", "write_fmt")
+                                                                       or (e.name in ("push", "push_back", "extend") and e in pushes))]
+            def printed(a, pred):
+                """pred holds for a sub-expression that is printed as such: not one that only feeds a call of the crate's own
+                functions (the recursive descent's result is text about the *target's* edges, not the target)"""
+                if isinstance(a, tuple) and a:
+                    if isinstance(a[0], str):
+                        if pred(a):
+                            return True
+                        if a[0] == "call" and not a[1].startswith(("core::", "std::", "alloc::", "<")):
+                            return False
+                    return any(printed(x, pred) for x in a if isinstance(x, tuple))
+                return False
+            has_l = any(printed(a, lambda x: x[0] == "field" and x[2] == "(tuple)::0" and mentions(x[1], p)) for e in fmt for a in e.args)
+            has_t = any(printed(a, lambda x: x[0] == "field" and x[2] == "(tuple)::1" and mentions(x[1], p)) for e in fmt for a in e.args)
             if not (has_l and has_t):
                 R.bad("IN2", "IN2/Sodg::inspect/edge-line-incomplete", it.where(), "an edge line lacks the label or the target")
                 continue
